@@ -1,9 +1,13 @@
 mod dsl;
 mod exec;
 mod gen;
+mod gen_tables;
+mod refmodels;
 mod harness;
 mod props_tri;
 mod rng;
+mod storesim;
+mod wellformed;
 mod tri;
 mod trisim;
 mod vals;
@@ -31,6 +35,7 @@ fn dispatch(args: &harness::Args) -> i32 {
     if let Some(path) = &args.replay {
         return match args.prop.as_str() {
             "C01" | "C02" | "C05" | "C18" | "C19" => props_tri::replay_cmd(args, path),
+            "C12" => storesim::replay_cmd(path),
             p => {
                 eprintln!("no replay for {}", p);
                 2
@@ -40,6 +45,9 @@ fn dispatch(args: &harness::Args) -> i32 {
     match args.prop.as_str() {
         "C01" => props_tri::run_c01(args),
         "C02" => props_tri::run_c02(args),
+        "C12" => storesim::run_c12(args),
+        "C18" => props_tri::run_c18(args),
+        "C19" => props_tri::run_c19(args),
         p => {
             eprintln!("unknown property/command {}", p);
             2
